@@ -1027,7 +1027,7 @@ pub fn turn_start_oracles(ctx: &mut Ctx, node: &Node, via: Option<&Action>) {
     if ctx.on(C08) {
         if let Some(pp) = gs.as_play_phase() {
             let scratch = Zobrist::from_piece_board(gs.piece_board(), node.gold, 0);
-            if via.is_some() {
+            {
                 let _ = scratch; // (the statement does not demand that the newest position is already recorded, only that what is recorded is right)
                 // every recorded hash is the from-scratch hash of some turn-start position of this game
                 let known: Vec<Zobrist> = node.hist.iter().map(|(r, s)| Zobrist::from_piece_board(piece_board_from_raw(r).piece_board(), *s, 0)).collect();
